@@ -430,6 +430,11 @@ def call_inputs(tier, rng):
                 pos = [rng.choice(ATOMS) for _ in range(npos)]
                 names = rng.sample(KWNAMES, nkw)
                 lists.append((pos, [[k, rng.choice(ATOMS)] for k in names]))
+    # long argument lists (sizes the shapes above never reach: a threshold on the number of arguments shows only here)
+    long_kw = [k for k in KWNAMES if k not in ('fn', 'ctx')]
+    for npos, nkw in ((9, 0), (13, 0), (19, 0), (0, 7), (5, 7), (10, 7), (17, 2)):
+        pos = [ATOMS[i % len(ATOMS)] for i in range(npos)]
+        lists.append((pos, [[k, ATOMS[(i + 3) % len(ATOMS)]] for i, k in enumerate(long_kw[:nkw])]))
     out = []
     for name in CALL_CLASSES:
         for pos, kws in lists:
@@ -487,6 +492,13 @@ def class_inputs(tier, rng):
                         vals = _instance_options(f) if (fname == 'a' and not main) else _instance_options(f, rng, 2)
                         for vexpr in vals:
                             out.append({'part': 'class', 'spec': dict(base, fields=[f]), 'inst': [vexpr]})
+    # wide classes: 9..14 fields (a threshold on the number of fields shows only here)
+    for lib in ('dc', 'attrs'):
+        for nf in (9, 12, 14):
+            fields = [{'name': 'f%02d' % i, 'default': 'none' if i < nf // 2 else 'value', 'dv': '0', 'repr': True} for i in range(nf)]
+            spec = {'lib': lib, 'name': 'Wide', 'main': False, 'frozen': False, 'slots': False, 'kw_only': False, 'fields': fields}
+            out.append({'part': 'class', 'spec': spec, 'inst': [str(i + 1) for i in range(nf)]})
+            out.append({'part': 'class', 'spec': spec, 'inst': [str(i + 1) if i % 3 else '0' for i in range(nf)]})
     # random: 2..n fields
     nclasses = 500 if tier == 'quick' else 3000
     maxf = 3 if tier == 'quick' else 4
